@@ -50,7 +50,7 @@ def _ts_params(nchunks=1, pfx='p'):
                old_present=z3.Bool(f'{pfx}_ts_old_present'), old_parses=z3.Bool(f'{pfx}_ts_old_parses'), served_parses=z3.Bool(f'{pfx}_ts_served_parses'),
                fetch_err=z3.Bool(f'{pfx}_ts_fetch_err'), fetch_err_kind=z3.BitVec(f'{pfx}_ts_fetch_err_kind', 64), chunk_err_kind=z3.BitVec(f'{pfx}_ts_chunk_err_kind', 64),
                safe=z3.Bool(f'{pfx}_safe'), maxsz=z3.BitVec(f'{pfx}_max_timestamp_size', 64),
-               lkt_present=z3.Bool(f'{pfx}_lkt_present'), lkt_parses=z3.Bool(f'{pfx}_lkt_parses'), lkt=z3.BitVec(f'{pfx}_lkt', 64),
+               lkt_present=z3.Bool(f'{pfx}_lkt_present'), lkt_parses=z3.Bool(f'{pfx}_lkt_parses'), lkt=z3.Int(f'{pfx}_lkt'),
                chunks=sym_chunks(f'{pfx}_ts', nchunks), join_fails=z3.Bool(f'{pfx}_join_fails'))
     return P
 
@@ -278,7 +278,7 @@ def summarize_repository_load(I, P):
 # ------------------------------------------------------------------------------------------------ read_target prologue
 def rt_params(pfx='p'):
     P = ts_params(0, pfx)
-    P.update(earliest=z3.BitVec(f'{pfx}_earliest_expiration', 64), role=z3.BitVec(f'{pfx}_earliest_role', 64), found=z3.Bool(f'{pfx}_target_found'))
+    P.update(earliest=z3.Int(f'{pfx}_earliest_expiration'), role=z3.BitVec(f'{pfx}_earliest_role', 64), found=z3.Bool(f'{pfx}_target_found'))
     return P
 def summarize_read_target(I, P):
     st = base_state(P)
